@@ -272,7 +272,7 @@ def rule_label_column(prog):
                  "handed to format! must stay below 65536, or rendering the diagnostic panics" % ((c or {}).get("v"),))
     guards = []
     for g in prog.fns.values():
-        if not g.norm.startswith(ERRMOD) or g.kind == "closure":
+        if g.crate != "kanata_parser" or not g.file.endswith("cfg/error.rs") or g.kind == "closure":
             continue
         n = 0
         for h in [g] + list(prog.closures_of(g)):
@@ -298,7 +298,21 @@ def rule_label_column(prog):
     res.fn(f)
     gnames = {g.norm for g, _ in guards}
     from kq.analysis import calls_incl_closures
-    gcalls = calls_incl_closures(prog, f, lambda t: (callee_name(t) or "") in gnames)
+    gcalls = calls_incl_closures(prog, f, lambda t: (callee_name(t) or "") in gnames and (callee_name(t) or "") != f.norm)
+    if f.norm in gnames:
+        # the guard was written into the conversion itself (or is a helper analysed inlined): the comparisons are the guard
+        def _cmp_here(h):
+            return [bi for bi, si, st in h.all_rvalues() if st["rv"]["k"] == "bin" and st["rv"]["op"] in ("Le", "Lt", "Gt", "Ge")
+                    and any(is_const(o) and (const_def(o) or "") == cname for o in (st["rv"]["a"], st["rv"]["b"]))]
+        gcalls = gcalls + [(bi, None) for bi in _cmp_here(f)]
+        clos_with_cmp = {c.norm for c in prog.closures_of(f) if _cmp_here(c)}
+        if clos_with_cmp:
+            from kq.core import Resolver, norm_name
+            for bi, t in f.calls():
+                for a in t["args"]:
+                    r = Resolver(f).root(a) if isinstance(a, dict) and "l" in a else ("?",)
+                    if r[0] == "agg" and norm_name(r[1][2].get("clo", "")) in clos_with_cmp:
+                        gcalls.append((bi, t))
     okcall = bool(gcalls)
     spans_ok, n_spans = True, 0
     for bi, t in calls_incl_closures(prog, f, lambda t: (callee_name(t) or "").endswith("SourceSpan::new")):
@@ -308,6 +322,39 @@ def rule_label_column(prog):
     takes = [bi for bi, t in f.calls() if (callee_name(t) or "") in ("core::option::Option::take", "core::mem::take")]
     pd = f.postdominators()
     cond_take = any(any(f.dominates(gb, tb) and not f.postdominates(tb, gb, pd) for gb, _ in gcalls) for tb in takes)
+    if not cond_take and gcalls:
+        # or no `take()` at all: the labelled span is built only on a branch that the guard's answer selects
+        # (`match span { Some(s) if too_far_right(&s) => without_snippet(..), Some(s) => with_snippet(s, ..), None => .. }`)
+        from kq.analysis import control_deps
+        from kq.core import rvalue_operands, is_place
+        gblocks = {gb for gb, _ in gcalls}
+
+        def decided_by_guard(block):
+            seenb, work = set(), [block]
+            while work:
+                b = work.pop()
+                if b in seenb:
+                    continue
+                seenb.add(b)
+                for S in control_deps(f, b, pd):
+                    op = f.term(S).get("d")
+                    seenl, ow = set(), [op]
+                    while ow:
+                        o = ow.pop()
+                        if not is_place(o) or o["l"] in seenl:
+                            continue
+                        seenl.add(o["l"])
+                        for (db, di, kind, payload) in f.defs().get(o["l"], []):
+                            if db in gblocks:
+                                return True
+                            if kind == "assign":
+                                ow.extend(rvalue_operands(payload))
+                            elif kind == "call":
+                                ow.extend(payload["args"])
+                    work.append(S)
+            return False
+        span_blocks = [bi for bi, t in calls_incl_closures(prog, f, lambda t: (callee_name(t) or "").endswith("SourceSpan::new"))]
+        cond_take = bool(span_blocks) and all(decided_by_guard(b) for b in span_blocks)
     ok = okcall and spans_ok and n_spans >= 1 and cond_take
     res.inst("conversion", where=f.loc, guard_calls=len(gcalls), labelled_spans=n_spans, spans_after_guard=spans_ok, span_dropped_conditionally=cond_take, ok=ok)
     res.oblige(ok)
